@@ -810,6 +810,16 @@ struct Kernel {
             r.push((long)(str.find('b') == etl::inplace_string<16>::npos ? -1 : (long)str.find('b')));
             r.push((long)(str.find("ab") == etl::inplace_string<16>::npos ? -1 : (long)str.find("ab")));
             r.push(str.compare("abc") < 0 ? -1 : str.compare("abc") > 0 ? 1 : 0);
+            // the view over the same characters: single-character and substring searches at and beyond size()
+            etl::string_view sv {str.data(), str.size()};
+            auto ix = [](etl::string_view::size_type p) { return p == etl::string_view::npos ? -1L : (long)p; };
+            for (etl::string_view::size_type d = 0; d < 3; ++d) {
+                r.push(ix(sv.find('b', sv.size() + d)));
+                r.push(ix(sv.rfind('b', sv.size() + d)));
+            }
+            r.push(ix(sv.find('a', 1)));
+            r.push(ix(sv.find("ab", sv.size() + 1)));
+            r.push(ix(sv.find_first_of('c', sv.size() + 2)));
         } else if constexpr (Which == 2) {
             etl::array<int, 12> a {};
             for (auto& x : a) { x = (int)(lcg(s) % 16) - 8; }
